@@ -217,6 +217,61 @@ func genC08(env *core.Env, emit func(core.Case)) {
 		}
 		run(mut, r.IntN(4) != 0, client, chunks, backendFlight())
 	}
+	// every extension of a valid hello in every odd shape (fixed table, nothing drawn): empty, one byte short,
+	// one byte long, a single byte, an odd-length list of 16-bit values, a list whose length prefix is odd
+	{
+		_, sealed := validTuple()
+		for j := range sealed.Outer.Exts {
+			d := sealed.Outer.Exts[j].Data
+			shapes := [][]byte{nil, {0}, {3, 3, 4, 0}, {2, 3, 4, 0}, {0, 3, 3, 4, 0}, gen.Cat(d, []byte{0})}
+			if len(d) > 0 {
+				shapes = append(shapes, d[:len(d)-1], d[:1])
+			}
+			for _, sh := range shapes {
+				for _, typ := range []uint16{sealed.Outer.Exts[j].Type, 43, 0, 16, 0xfe0d, 0xfd00} {
+					h := *sealed.Outer
+					h.Exts = slices.Clone(h.Exts)
+					h.Exts[j] = gen.Ext{Type: typ, Data: sh}
+					client := h.Record(0x0301)
+					run("extshape", true, client, oneChunk(client), nil)
+				}
+			}
+		}
+	}
+	// a key list in which one entry's ECHConfig does not decode (another draft version, a truncated config),
+	// before and after a good key: hellos that no key opens, hellos the good key opens, hellos without ECH
+	{
+		_, sealed := validTuple()
+		good := echKeys(key)[0]
+		bad1 := ech.Key{Config: slices.Clone(good.Config), PrivateKey: good.PrivateKey}
+		bad1.Config[1] = 0x0a // version 0xfe0a
+		bad2 := ech.Key{Config: good.Config[:len(good.Config)-3], PrivateKey: good.PrivateKey}
+		unknown := *sealed.Outer
+		unknown.Exts = slices.Clone(unknown.Exts)
+		if _, i := gen.FindECH(&unknown); i >= 0 {
+			unknown.Exts[i] = gen.Ext{Type: 0xfe0d, Data: gen.ECHOuter{KDF: 1, AEAD: 1, ConfigID: 200, Enc: gen.RandBytes(r, 32), Payload: gen.RandBytes(r, 100)}.Data()}
+		}
+		for _, keys := range [][]ech.Key{{bad1, good}, {good, bad1}, {bad2, good}, {good, bad2}, {bad1}, {bad1, bad2, good}, {good, bad1, bad2}} {
+			for _, client := range [][]byte{sealed.Rec, unknown.Record(0x0301), gen.Cat(sealed.Rec, gen.Record(23, 0x0303, []byte{1, 2, 3}))} {
+				idx++
+				s := connh.NewSess(keys)
+				s.Register(sealed.Rec)
+				res := s.New(oneChunk(client), "eof")
+				w := ""
+				if res.Err == "panic" {
+					w = "NewConn panicked: " + res.Panic
+				} else if res.Err == "-" {
+					if d := drain(s, []int{4096}, 1000); d.Panicked != "" {
+						w = "Read panicked: " + d.Panicked
+					}
+				}
+				s.X("a key whose config does not decode is skipped: no panic whatever the hello", w)
+				emit(core.Case{Name: fmt.Sprintf("badkey/%d", idx), Stream: "badkey", Ops: s.Ops, Key: "badkey/" + res.Err, Sig: "badkey/" + res.Err,
+					Sample: map[string]any{"stream": "badkey", "keys": len(keys), "outcome": res.Err}})
+				env.Count("badkey/" + connh.Short(res.Err))
+			}
+		}
+	}
 	// a ServerHello / HelloRetryRequest cut at every byte offset (lengths re-framed), and a TLS 1.2 style
 	// ServerHello without an extensions field, written to an accepted Conn
 	{
